@@ -269,3 +269,97 @@ func (c *Ctx) helperInline(root *ssa.Function) func(*ssa.Function) bool {
 		return !anchorFuncs[name]
 	}
 }
+
+// callersOf returns, for every module function, the functions that call it
+// statically or mention it as a value (a method value or function value is
+// attributed to the function that creates it).
+func (c *Ctx) callersOf() map[*ssa.Function][]*ssa.Function {
+	if c.callers != nil {
+		return c.callers
+	}
+	m := map[*ssa.Function][]*ssa.Function{}
+	add := func(callee, caller *ssa.Function) {
+		if callee == nil || !load.InModule(callee) {
+			return
+		}
+		if o := callee.Origin(); o != nil {
+			callee = o
+		}
+		for _, x := range m[callee] {
+			if x == caller {
+				return
+			}
+		}
+		m[callee] = append(m[callee], caller)
+	}
+	var visit func(fn *ssa.Function)
+	visit = func(fn *ssa.Function) {
+		for _, b := range fn.Blocks {
+			for _, in := range b.Instrs {
+				if ci, ok := in.(ssa.CallInstruction); ok {
+					add(an.StaticCallee(ci.Common()), fn)
+				}
+				for _, op := range in.Operands(nil) {
+					if op == nil || *op == nil {
+						continue
+					}
+					if f, ok := (*op).(*ssa.Function); ok {
+						if f.Parent() == nil {
+							add(f, fn)
+						}
+					}
+					if mc, ok := (*op).(*ssa.MakeClosure); ok {
+						if f, ok := mc.Fn.(*ssa.Function); ok && strings.HasSuffix(f.Name(), "$bound") {
+							// method value: attribute the underlying method
+							for _, ci := range an.CallsIn(f) {
+								add(an.StaticCallee(ci.Common()), fn)
+							}
+						}
+					}
+				}
+			}
+		}
+		for _, a := range fn.AnonFuncs {
+			visit(a)
+		}
+	}
+	for _, fn := range c.srcFuncs() {
+		if fn.Parent() == nil {
+			visit(fn)
+		}
+	}
+	c.callers = m
+	return m
+}
+
+// reachedOnlyFrom reports whether fn (a function containing a restricted call)
+// is one of the allowed functions, a closure of one, or a helper (a function
+// outside the frozen anchor table) all of whose callers are, transitively.
+// The second result names the offending function.
+func (c *Ctx) reachedOnlyFrom(fn *ssa.Function, allowed func(root *ssa.Function) bool) (bool, string) {
+	seen := map[*ssa.Function]bool{}
+	var rec func(f *ssa.Function) (bool, string)
+	rec = func(f *ssa.Function) (bool, string) {
+		root := f
+		for root.Parent() != nil {
+			root = root.Parent()
+		}
+		if o := root.Origin(); o != nil {
+			root = o
+		}
+		if allowed(root) {
+			return true, ""
+		}
+		if anchorFuncs[load.FuncName(root)] || seen[root] {
+			return seen[root], c.fname(root)
+		}
+		seen[root] = true
+		for _, caller := range c.callersOf()[root] {
+			if ok, who := rec(caller); !ok {
+				return false, who
+			}
+		}
+		return true, ""
+	}
+	return rec(fn)
+}
